@@ -42,6 +42,9 @@ func runC03(c *engine.Ctx, tier string) {
 	mergeAgreement(c)
 	cascadeShape(c, "C03.10a", pkgCtlUtils, "controller/utils.AddDeleteChildren")
 	cascadeShape(c, "C03.10b", pkgTxCtlV3, "controller/v3/transaction.addDeleteChildren")
+	populateRouting(c, "C03.12a", pkgStoreCfgV2)
+	populateRouting(c, "C03.12b", pkgStoreCfgV3)
+	queryNormalised(c)
 	pruneShape(c, "C03.11a", pkgTreeV2)
 	pruneShape(c, "C03.11b", pkgTreeV3)
 	// (9) an acknowledged Set's values are in the stored configuration: the commit step skips the merge
@@ -56,6 +59,8 @@ func runC03(c *engine.Ctx, tier string) {
 		Sel:     engine.Sel{Call: stCfgUpdate},
 		Require: "@CFG.Status.Committed.Index == @PREV && #wrote(" + fCommittedIdx + "=@OWN)",
 		Why:     "values are merged exactly once, on the predecessor's result, and the same write moves the cursor"})
+	// a value stays readable "until it is rolled back": what a rollback writes back must differ, for the store, from what the change wrote
+	captureLoopAs(c, "C03.13")
 }
 
 var pathNameRe = regexp.MustCompile(`(?i)path|prefix`)
@@ -1112,6 +1117,111 @@ func pruneShape(c *engine.Ctx, id, rel string) {
 		}
 		if ret != nil && (len(ret.Results) != 1 || !strings.HasPrefix(ret.Results[0], "?prunedPaths")) {
 			fail(p, end, "the function returns "+strings.Join(ret.Results, ",")+", not the kept list")
+		}
+	}
+}
+
+// populateRouting: C03.12. What is read from each primitive goes into the map it belongs to.
+func populateRouting(c *engine.Ctx, id, rel string) {
+	o := c.Custom(id, "K-dataflow(populate)", "populate(): an entry taken from the stream listed from getCommitted is stored under its own key in the committed value map only, an entry from getApplied's stream in the applied value map only",
+		"Get reads the committed values: an applied entry stored there shows the caller what the device last accepted instead of what was set")
+	defer o.Done(2)
+	ps, err := c.A.PathsOpt(rel, engine.PathOpts{Roots: []string{"configurationStore.populate"}, NoInline: true})
+	if err != nil || len(ps) == 0 {
+		o.Undecided(rel, fmt.Sprintf("no paths for populate: %v", err))
+		return
+	}
+	reported := map[string]bool{}
+	for _, p := range ps {
+		// symbol of a Next() result -> which primitive its stream was listed from
+		origin := map[string]string{}
+		lists := map[string]string{} // stream canon -> committed/applied
+		for i := range p.Events {
+			e := &p.Events[i]
+			if e.Kind != engine.EvCall {
+				continue
+			}
+			switch {
+			case strings.HasSuffix(e.CalleeName, "Map.List"):
+				r := c.P.Render(e.Recv, nil)
+				switch {
+				case strings.Contains(r, "getCommitted("):
+					lists[e.Canon] = "committed"
+				case strings.Contains(r, "getApplied("):
+					lists[e.Canon] = "applied"
+				}
+			case strings.HasSuffix(e.CalleeName, "EntryStream.Next"):
+				for s, k := range lists {
+					if e.Recv == s {
+						origin[e.Canon] = k
+					}
+				}
+			}
+		}
+		for i := range p.Events {
+			e := &p.Events[i]
+			if e.Kind != engine.EvWrite || !strings.HasSuffix(e.Field, "Values[]") {
+				continue
+			}
+			var want string
+			switch {
+			case strings.HasSuffix(e.Field, "AppliedConfigurationStatus.Values[]") || strings.HasSuffix(e.Field, "AppliedConfiguration.Values[]"):
+				want = "applied"
+			case strings.HasSuffix(e.Field, "Configuration.Values[]") || strings.HasSuffix(e.Field, "CommittedConfiguration.Values[]"):
+				want = "committed"
+			default:
+				continue
+			}
+			o.Site(c.P.Pos(e.Pos) + " " + e.Field)
+			o.Eval(1)
+			src := strings.TrimSuffix(strings.TrimPrefix(e.RHS, "*"), ".Value")
+			got := origin[src]
+			keyOK := strings.HasSuffix(e.LHS, "["+src+".Key]")
+			if (got != want || !keyOK) && !reported[c.P.Pos(e.Pos)] {
+				reported[c.P.Pos(e.Pos)] = true
+				o.Fail(&engine.Violation{Key: rel + ".populate|" + want + " map filled from the " + got + " primitive", Pos: c.P.Pos(e.Pos), Func: p.Root.Name(),
+					Msg: "the " + want + " value map is written with an entry read from the '" + got + "' primitive (or not under the entry's own key): " + c.Render(e.LHS) + " = " + c.Render(e.RHS)})
+			}
+		}
+	}
+}
+
+// queryNormalised: C03.14. The text given to the Get filter does not end in a separator.
+func queryNormalised(c *engine.Ctx) {
+	o := c.Custom("C03.14", "K-dataflow(query)", "Server.processRequest: the pathAsString of every path of the request is strings.TrimSuffix(…, \"/\")",
+		"MatchWildcardRegexp gives a query that ends in '/' no element boundary (C03.2): a prefix plus an empty path would otherwise ask for '/node/' and miss /node[k=1]/… and the leaf /node itself")
+	defer o.Done(1)
+	for _, w := range c.P.FieldWrites() {
+		if w.Field != "northbound/gnmi/v2.pathInfo.pathAsString" || w.Func != "northbound/gnmi/v2.Server.processRequest" || w.Test {
+			continue
+		}
+		o.Eval(1)
+		if w.RHS == "prefixPath" {
+			continue // the prefix-only form: the prefix's own path
+		}
+		o.Site(w.Pos + " pathAsString: " + w.RHS)
+		ok := false
+		// the variable assigned must have been trimmed: look for the assignment in the function
+		for _, fi := range c.P.FuncsOf(c.P.Pkg(pkgNbGnmi)) {
+			if fi.Name() != w.Func {
+				continue
+			}
+			ast.Inspect(fi.Decl.Body, func(n ast.Node) bool {
+				as, isAs := n.(*ast.AssignStmt)
+				if !isAs || len(as.Lhs) != 1 || len(as.Rhs) != 1 {
+					return true
+				}
+				if types.ExprString(as.Lhs[0]) == w.RHS && strings.HasPrefix(types.ExprString(as.Rhs[0]), "strings.TrimSuffix("+w.RHS+", \"/\")") {
+					ok = true
+				}
+				return true
+			})
+		}
+		if strings.HasPrefix(w.RHS, "strings.TrimSuffix(") {
+			ok = true
+		}
+		if !ok {
+			o.Fail(&engine.Violation{Key: w.Func + "|query not trimmed", Pos: w.Pos, Func: w.Func, Msg: "the query text " + w.RHS + " is stored without strings.TrimSuffix(…, \"/\")"})
 		}
 	}
 }
